@@ -5,7 +5,7 @@ PID = "C15"
 MODULES = ["BeffVerif.Props.C15"]
 AUDIT = "BeffVerif/Audit/C15.lean"
 TAGS = ("c15.",)
-HYP = {"NoMixedIndexObject": "D43", "NoTemplateAlternation": "D24c", "NoNamingNearUnion": "D11", "NoNamedIntersectionMember": "D39", "NoNamingWithRecursion": "D41"}
+HYP = {"NoMixedIndexObject": "D43", "NoTemplateAlternation": "D24c", "NoNamingNearUnion": "D11", "NoNamedIntersectionMember": "D39", "NoNamedSharedKeyInIntersection": "D39b", "NoNamingWithRecursion": "D41"}
 
 def engine(chk, lines):
     """generation 1: real compile → real describe(); generation 2: the printed text compiled again by the real compiler;
